@@ -202,3 +202,236 @@ pub fn to_sim(i: &RI) -> Option<SimInstr> {
         RI::Trap(v) => SimInstr::TRAP(Offset::<u16, 8>::new(v as u16).ok()?),
     })
 }
+
+// ==========================================================================================
+// Reference two-pass assembler and well-formedness classifier over generated statements
+// ==========================================================================================
+use crate::gen::{GStmt, PcOp, Src, K};
+use std::collections::{BTreeMap, BTreeSet, HashMap};
+
+/// Tags mirroring the crate's `AsmErrKind` (OffsetNewErr carries the field width).
+#[derive(Clone, Copy, Debug, PartialEq, Eq, PartialOrd, Ord, Hash)]
+pub enum Kind {
+    UndetAddrLabel, UndetAddrStmt, UnclosedOrig, UnopenedOrig, OverlappingOrig, OverlappingLabels, WrappingBlock,
+    BlockInIO, OverlappingBlocks, OffsetFit(u32), OffsetExternal, CouldNotFindLabel,
+}
+
+#[derive(Clone, Debug, Default)]
+pub struct Analysis {
+    /// the program violates at least one well-formedness condition
+    pub reject: bool,
+    /// kinds that name a violated condition (what the assembler may report)
+    pub acceptable: BTreeSet<Kind>,
+    /// human-readable list of violated conditions
+    pub faults: Vec<String>,
+    /// address -> Some(word) | None (.blkw)          (meaningful only when !reject)
+    pub image: BTreeMap<u16, Option<u16>>,
+    /// upper-cased label -> (address, external)
+    pub labels: BTreeMap<String, (u16, bool)>,
+    /// relocation entries: address of `.fill EXT` -> upper-cased label
+    pub relocs: BTreeMap<u16, String>,
+    /// non-empty blocks (start, words)
+    pub blocks: Vec<(u16, Vec<Option<u16>>)>,
+    /// statement index -> address of its first word (statements that occupy memory)
+    pub stmt_addr: BTreeMap<usize, u16>,
+    /// first defining statement index for every label (upper-cased) and which label slot
+    pub label_def: BTreeMap<String, (usize, usize)>,
+    /// label -> statement index of an `.external` that declares it
+    pub external_decl: BTreeMap<String, usize>,
+}
+
+fn up(s: &str) -> String { s.to_uppercase() }
+
+/// Encodes one instruction statement at `addr` given the label table. Errors are (kind, text).
+fn encode_stmt(k: &K, addr: u32, labels: &HashMap<String, Vec<(u32, bool)>>) -> Result<RI, (Kind, String)> {
+    let pc = |op: &PcOp, bits: u32| -> Result<i16, (Kind, String)> {
+        match op {
+            PcOp::Num(v) => Ok(*v as i16),
+            PcOp::Label(l) => {
+                let Some(b) = labels.get(&up(l)) else { return Err((Kind::CouldNotFindLabel, format!("label {l} is not defined"))) };
+                let (target, ext) = b[0];
+                if ext || b.iter().any(|x| x.1) { return Err((Kind::OffsetExternal, format!("external label {l} used as PC-relative operand"))); }
+                let d = (target as i64 - (addr as i64 + 1)).rem_euclid(65536);
+                let d = if d >= 32768 { d - 65536 } else { d };
+                let lo = -(1i64 << (bits - 1)); let hi = (1i64 << (bits - 1)) - 1;
+                if d < lo || d > hi { return Err((Kind::OffsetFit(bits), format!("offset {d} to {l} does not fit {bits} bits"))); }
+                Ok(d as i16)
+            }
+        }
+    };
+    let ro = |s: &Src| match s { Src::Reg(r) => RO::Reg(*r), Src::Imm(v) => RO::Imm(*v as i16) };
+    Ok(match k {
+        K::Add(d, s, x) => RI::Add(*d, *s, ro(x)),
+        K::And(d, s, x) => RI::And(*d, *s, ro(x)),
+        K::Br(c, o) => RI::Br(*c, pc(o, 9)?),
+        K::Jmp(r) => RI::Jmp(*r),
+        K::Jsr(o) => RI::Jsr(pc(o, 11)?),
+        K::Jsrr(r) => RI::Jsrr(*r),
+        K::Ld(d, o) => RI::Ld(*d, pc(o, 9)?),
+        K::Ldi(d, o) => RI::Ldi(*d, pc(o, 9)?),
+        K::Ldr(d, b, o) => RI::Ldr(*d, *b, *o as i16),
+        K::Lea(d, o) => RI::Lea(*d, pc(o, 9)?),
+        K::Not(d, s) => RI::Not(*d, *s),
+        K::Ret => RI::Jmp(7),
+        K::Rti => RI::Rti,
+        K::St(d, o) => RI::St(*d, pc(o, 9)?),
+        K::Sti(d, o) => RI::Sti(*d, pc(o, 9)?),
+        K::Str(d, b, o) => RI::Str(*d, *b, *o as i16),
+        K::Trap(v) => RI::Trap(*v as u8),
+        K::Nop(None) => RI::Br(0, 0),
+        K::Nop(Some(o)) => RI::Br(0, pc(o, 9)?),
+        K::Getc => RI::Trap(0x20), K::Out | K::Putc => RI::Trap(0x21), K::Puts => RI::Trap(0x22), K::In => RI::Trap(0x23),
+        K::Putsp => RI::Trap(0x24), K::Halt => RI::Trap(0x25),
+        _ => unreachable!("not an instruction"),
+    })
+}
+
+/// Classifies a statement list and, when it is well-formed, computes image, labels and relocations.
+pub fn analyze(stmts: &[GStmt]) -> Analysis {
+    let mut a = Analysis::default();
+    let mut fault = |a: &mut Analysis, kinds: &[Kind], text: String| {
+        a.reject = true;
+        for k in kinds { a.acceptable.insert(*k); }
+        a.faults.push(text);
+    };
+    // ---- pass 1: location counter, labels, structure ----
+    struct Blk { start: u32, lc: u32, first_stmt: usize, overflow: bool }
+    let mut cur: Option<Blk> = None;
+    let mut ambiguous = false; // addresses after this point are not uniquely defined (nested .orig / overflow)
+    let mut binds: HashMap<String, Vec<(u32, bool)>> = HashMap::new(); // upper -> [(addr, external)]
+    let mut stmt_addr: BTreeMap<usize, u32> = BTreeMap::new();
+    let mut ranges: Vec<(u32, u32, usize)> = vec![]; // (start, len, first stmt)
+    for (i, st) in stmts.iter().enumerate() {
+        let in_block = cur.is_some();
+        if !st.labels.is_empty() {
+            match &cur {
+                None => {
+                    let mut kinds = vec![Kind::UndetAddrLabel];
+                    if !matches!(st.k, K::Orig(_) | K::External(_)) { kinds.push(Kind::UndetAddrStmt); }
+                    if matches!(st.k, K::End) { kinds.push(Kind::UnopenedOrig); }
+                    fault(&mut a, &kinds, format!("label(s) {:?} outside of a block (statement {i})", st.labels));
+                }
+                Some(b) => for (li, l) in st.labels.iter().enumerate() {
+                    binds.entry(up(l)).or_default().push((b.lc, false));
+                    a.label_def.entry(up(l)).or_insert((i, li));
+                }
+            }
+        }
+        match &st.k {
+            K::Orig(addr) => {
+                if in_block {
+                    fault(&mut a, &[Kind::OverlappingOrig], format!(".orig inside a block (statement {i})"));
+                    ambiguous = true;
+                } else {
+                    cur = Some(Blk { start: *addr as u32, lc: *addr as u32, first_stmt: i, overflow: false });
+                }
+            }
+            K::End => {
+                match cur.take() {
+                    None => fault(&mut a, &[Kind::UnopenedOrig], format!(".end without .orig (statement {i})")),
+                    Some(b) => { if b.lc > b.start { ranges.push((b.start, b.lc - b.start, b.first_stmt)); } }
+                }
+            }
+            K::External(l) => {
+                binds.entry(up(l)).or_default().push((0, true));
+                a.external_decl.entry(up(l)).or_insert(i);
+            }
+            k => {
+                match &mut cur {
+                    None => fault(&mut a, &[Kind::UndetAddrStmt], format!("statement {i} ({}) outside of a block", k.name())),
+                    Some(b) => {
+                        let n = k.size();
+                        if n > 0 { stmt_addr.insert(i, b.lc); }
+                        b.lc += n;
+                        if n > 0 && b.lc > 0xFE00 && !b.overflow {
+                            b.overflow = true;
+                            ambiguous = true;
+                            let start = b.start;
+                            if b.lc <= 0x10000 { fault(&mut a, &[Kind::BlockInIO], format!("block at x{start:04X} reaches x{:05X} (> xFE00) at statement {i}", b.lc)); }
+                            else { fault(&mut a, &[Kind::WrappingBlock, Kind::BlockInIO], format!("block at x{start:04X} wraps past xFFFF at statement {i}")); }
+                        }
+                    }
+                }
+            }
+        }
+    }
+    if let Some(b) = &cur {
+        fault(&mut a, &[Kind::UnclosedOrig], format!(".orig at statement {} is never closed", b.first_stmt));
+        if b.lc > b.start { ranges.push((b.start, b.lc - b.start, b.first_stmt)); }
+    }
+    // duplicate labels: same name bound to two different addresses (external counts as address 0)
+    for (name, b) in &binds {
+        if b.iter().any(|x| x.0 != b[0].0) {
+            fault(&mut a, &[Kind::OverlappingLabels], format!("label {name} bound to several addresses {:X?}", b.iter().map(|x| x.0).collect::<Vec<_>>()));
+        }
+    }
+    // overlapping non-empty blocks
+    for i in 0..ranges.len() { for j in i + 1..ranges.len() {
+        let (s1, l1, _) = ranges[i]; let (s2, l2, _) = ranges[j];
+        if s1 < s2 + l2 && s2 < s1 + l1 { fault(&mut a, &[Kind::OverlappingBlocks], format!("blocks x{s1:04X}+{l1} and x{s2:04X}+{l2} overlap")); }
+    } }
+    // ---- pass 2: operands ----
+    let mut words: BTreeMap<usize, Vec<Option<u16>>> = BTreeMap::new();
+    for (i, st) in stmts.iter().enumerate() {
+        let Some(&addr) = stmt_addr.get(&i) else {
+            // statements outside blocks still have operands whose labels may be undefined; the statement fault is already recorded
+            continue;
+        };
+        match &st.k {
+            K::Fill(PcOp::Num(v)) => { words.insert(i, vec![Some(*v as u16)]); }
+            K::Fill(PcOp::Label(l)) => {
+                match binds.get(&up(l)) {
+                    None => fault(&mut a, &[Kind::CouldNotFindLabel], format!(".fill label {l} is not defined (statement {i})")),
+                    Some(b) => {
+                        if b.iter().any(|x| x.1) { a.relocs.insert(addr as u16, up(l)); }
+                        words.insert(i, vec![Some(b[0].0 as u16)]);
+                    }
+                }
+            }
+            K::Blkw(n) => { words.insert(i, vec![None; (*n).max(0) as usize]); }
+            K::Stringz(s) => { let mut w: Vec<Option<u16>> = s.bytes().map(|b| Some(b as u16)).collect(); w.push(Some(0)); words.insert(i, w); }
+            k if k.is_instr() => match encode_stmt(k, addr, &binds) {
+                Ok(ri) => { words.insert(i, vec![Some(encode_ref(&ri))]); }
+                Err((kind, text)) => fault(&mut a, &[kind], format!("{text} (statement {i})")),
+            },
+            _ => {}
+        }
+    }
+    if ambiguous {
+        // After a nested .orig or a location-counter overflow, later addresses depend on the recovery
+        // an assembler chooses; any address-dependent kind is then acceptable (the verdict is 'reject' anyway).
+        for k in [Kind::OverlappingLabels, Kind::OverlappingBlocks, Kind::BlockInIO, Kind::WrappingBlock, Kind::OffsetFit(9), Kind::OffsetFit(11),
+                  Kind::UnclosedOrig, Kind::UnopenedOrig, Kind::OverlappingOrig, Kind::UndetAddrStmt, Kind::UndetAddrLabel] { a.acceptable.insert(k); }
+    }
+    if a.reject { return a; }
+    // ---- well-formed: build image ----
+    for (i, w) in &words {
+        let base = stmt_addr[i];
+        for (k, v) in w.iter().enumerate() { a.image.insert((base + k as u32) as u16, *v); }
+    }
+    for (name, b) in &binds { a.labels.insert(name.clone(), (b[0].0 as u16, b.iter().any(|x| x.1))); }
+    for (i, ad) in &stmt_addr { a.stmt_addr.insert(*i, *ad as u16); }
+    ranges.sort();
+    for (s, l, _) in ranges {
+        let mut v = vec![];
+        for k in 0..l { v.push(a.image.get(&((s + k) as u16)).copied().flatten().map(Some).unwrap_or(None)); }
+        // distinguish "absent" from ".blkw": every address in a block is present in the image
+        let v2: Vec<Option<u16>> = (0..l).map(|k| *a.image.get(&((s + k) as u16)).expect("block word present")).collect();
+        let _ = v;
+        a.blocks.push((s as u16, v2));
+    }
+    a
+}
+
+pub fn kind_of_crate(k: &lc3_ensemble::asm::AsmErrKind) -> Kind {
+    use lc3_ensemble::asm::AsmErrKind as E;
+    use lc3_ensemble::ast::OffsetNewErr as O;
+    match k {
+        E::UndetAddrLabel => Kind::UndetAddrLabel, E::UndetAddrStmt => Kind::UndetAddrStmt, E::UnclosedOrig => Kind::UnclosedOrig,
+        E::UnopenedOrig => Kind::UnopenedOrig, E::OverlappingOrig => Kind::OverlappingOrig, E::OverlappingLabels => Kind::OverlappingLabels,
+        E::WrappingBlock => Kind::WrappingBlock, E::BlockInIO => Kind::BlockInIO, E::OverlappingBlocks => Kind::OverlappingBlocks,
+        E::OffsetNewErr(O::CannotFitSigned(n)) => Kind::OffsetFit(*n),
+        E::OffsetNewErr(O::CannotFitUnsigned(n)) => Kind::OffsetFit(100 + *n),
+        E::OffsetExternal => Kind::OffsetExternal, E::CouldNotFindLabel => Kind::CouldNotFindLabel,
+    }
+}
